@@ -12,7 +12,7 @@ canary socket, canary strings in user arguments and response bytes, rejection
 of expansion and nesting bombs as Client.XMLSyntaxError, wall time and peak
 RSS of a parsing subprocess.
 """
-import os, sys, io, json, time, struct, ctypes, socket, threading, tempfile, shutil, subprocess, resource
+import os, re, sys, io, json, time, struct, ctypes, socket, threading, tempfile, shutil, subprocess, resource
 import lib
 from lib import gz, glist, gbool, gopt, gpair
 
@@ -727,8 +727,25 @@ def drive(apps, world, route, doc):
     return dict(data=data, doc=d2, kind=kind, esc=esc, status=status, out=out, captured=list(CAPTURE),
                 files=world.file_events(), hits=world.net_hits(), wall=dt)
 
-SITE_OF_ROUTE = {'XmlDocument': 'XmlDocument.create_in_document', 'Soap11': '_parse_xml_string',
-                 'Soap12': '_parse_xml_string'}
+# which function of `parse_sites` parses for which route: resolved from the working tree by following the calls
+# from <protocol>.create_in_document (translate/xmlparsercfg.route_sites), so that a renamed or extracted parse
+# helper is still the site the route is compared with; these are the names on the tree the model was written for
+SITE_OF_ROUTE_DEFAULT = {'XmlDocument': 'XmlDocument.create_in_document', 'Soap11': '_parse_xml_string',
+                         'Soap12': '_parse_xml_string', 'swa': '_join_attachment'}
+
+
+def site_of_route(check):
+    from translate import xmlparsercfg
+    try:
+        names = xmlparsercfg.route_sites(lib.REPO)
+    except Exception as e:
+        check.mismatch('spyne_entry_points', 'cannot resolve the parse site of each route: %s: %s' % (type(e).__name__, e))
+        return dict(SITE_OF_ROUTE_DEFAULT)
+    for k, v in names.items():
+        if not re.match(r'^[A-Za-z_][A-Za-z0-9_.]*$', v):
+            check.mismatch('spyne_entry_points', 'unexpected function name %r for route %s' % (v, k))
+            return dict(SITE_OF_ROUTE_DEFAULT)
+    return names
 
 SPYNE_TYPE = 'string * bool * doc * (Z * (list text * list text * list text * list text))'
 SPYNE_OKB = '''(fun k : (%s) =>
@@ -739,7 +756,7 @@ SPYNE_OKB = '''(fun k : (%s) =>
     match site_cfg init_defaults parser_kwargs_src sB with
     | SCfg cB =>
       let r := if swa then
-                 match find (fun s => String.eqb (s_func s) "_join_attachment") parse_sites with
+                 match find (fun s => String.eqb (s_func s) "@SWA@") parse_sites with
                  | Some sA => match site_cfg init_defaults parser_kwargs_src sA with
                               | SCfg cA => Some (swa_pipeline (s_catch sA) cA (s_catch sB) cB world0 d)
                               | _ => None end
@@ -797,6 +814,7 @@ def spyne_layer(check, world, docs, tier):
     # exist or have parsed before them (no configuration may leak between instances)
     permissive_first(world)
     apps = build_apps()
+    site_names = site_of_route(check)
     cases = []
     stats = {}
     for family, pos, doc in docs:
@@ -835,11 +853,12 @@ def spyne_layer(check, world, docs, tier):
             obs = '(%d, (%s, %s, %s, %s))' % (KIND_ID[o['kind']], glist([gtext(x) for x in vs]),
                                               glist([gtext(x) for x in vname]), glist([gtext(x) for x in vtag]),
                                               glist([gtext(x) for x in varr]))
-            cases.append(('("%s"%%string, %s, %s, %s)' % (SITE_OF_ROUTE[proto], gbool(transport == 'WSGI-multipart'),
+            cases.append(('("%s"%%string, %s, %s, %s)' % (site_names[proto], gbool(transport == 'WSGI-multipart'),
                                                          g_doc(o['doc'], len(o['data'])), obs),
                           '%s | %s at %s | %s -> %s %r' % (where, family, pos, o['data'][:300].decode(), o['kind'],
                                                            cap[:1])))
-    lib.correspond(check, 'spyne_entry_points', PRELUDE + world.coq() + SPYNE_PRE, SPYNE_TYPE, SPYNE_OKB, cases,
+    lib.correspond(check, 'spyne_entry_points', PRELUDE + world.coq() + SPYNE_PRE, SPYNE_TYPE,
+                   SPYNE_OKB.replace('@SWA@', site_names['swa']), cases,
                    shard=150, show=SPYNE_SHOW)
     check.extra['spyne_outcomes'] = stats
     return len(cases)
@@ -1101,7 +1120,9 @@ def run(check):
                   'ServerBase/WSGI + Soap11 multipart); a case is distinct by (layer, family, position, configuration/route)')
     check.trusted = list(lib.COMMON_TRUSTED) + [
         'translator harness/translate/xmlparsercfg.py (XmlDocument.__init__ defaults, parser_kwargs dict, parser argument and '
-        'try/except of every lxml parse call in protocol/xml.py, soap/soap11.py, soap/soap12.py, soap/mime.py, _inbase.py)',
+        'try/except of every lxml parse call in protocol/xml.py, soap/soap11.py, soap/soap12.py, soap/mime.py, _inbase.py), '
+        'including its normalisation rules (dict displays, `return <parser>` helper methods, once-bound locals, the '
+        'try/except at every call site of a private helper, the route -> parse function resolution by call graph)',
         'modelled, not verified: libxml2 2.14 / lxml 6.1 option semantics (coq/C17/Xml.v), compared with the real parser on '
         'the corpus under 15 configurations; the renderer from abstract documents to bytes in harness/c17.py',
         'observation channels: Linux inotify (IN_OPEN|IN_ACCESS) on the canary files, a listening localhost socket, '
